@@ -327,11 +327,12 @@ def observe_join(case, aux=()):
                 def warm(t):
                     o = _mk_table(other_cols)
                     for how in ("inner", "left", "full"):
-                        try:
-                            (call_join(case, t, o, how=how, expect="many_to_many")[0] if as_left
-                             else call_join(case, o, t, how=how, expect="many_to_many")[0])()
-                        except Exception:                    # noqa: BLE001
-                            pass
+                        for exp in ("many_to_many", "many_to_one", "one_to_one", "one_to_many"):
+                            try:
+                                (call_join(case, t, o, how=how, expect=exp)[0] if as_left
+                                 else call_join(case, o, t, how=how, expect=exp)[0])()
+                            except Exception:                # noqa: BLE001
+                                pass
                 return warm
             L, okl = _mk_lived_table(case["L"], case["lived"], warm_with(case["R"], True))
             R, okr = _mk_lived_table(case["R"], case["lived"] + 1, warm_with(case["L"], False))
